@@ -29,6 +29,9 @@ func covAccumulate(c *ctx, it *ref.Interp) {
 
 // requireCov marks the run inconclusive if a coverage cell the property needs stayed empty.
 func requireCov(c *ctx, keys ...string) {
+	if c.replay != "" {
+		return // a replay runs one witness, not a workload
+	}
 	for _, k := range keys {
 		if c.run.Counters[k] == 0 {
 			c.run.Incon("required coverage cell never observed: " + k)
